@@ -8,7 +8,7 @@
       [reserve_std s n] = bank balance of the pool's escrow address in the standard denom,
       [reserve_tok s cp n] = its balance in [cp], [liquidity s n] = bank supply of "lpt-n". *)
 From Irismod Require Import Coinswap.Model Coinswap.Check Coinswap.ProofsArith Coinswap.ProofsSpec
-  Coinswap.Proofs Coinswap.ProofsValue.
+  Coinswap.Proofs Coinswap.ProofsValue Coinswap.ProofsSound.
 
 Local Open Scope Z_scope.
 
@@ -153,6 +153,27 @@ Theorem failed_msg_changes_no_pool :
   forall (s : state) (m : msg) (o : outcome), exec s m = Fail o -> step s m = s.
 Proof. exact failed_step_changes_nothing. Qed.
 Print Assumptions failed_msg_changes_no_pool.
+
+(** ** the check's predicate is true of every model step
+
+    [c01_step] (Check.v) is the decidable predicate the check evaluates on the IMPLEMENTATION's
+    observed worlds before/after each message: value per share of every registered pool, and for a
+    swap the rule / maximal output / near-minimal input recomputed from the observed reserve
+    changes of each leg.  On the model's own worlds it always answers 0 (no clause violated): the
+    check cannot raise an alarm on code that behaves as the model. *)
+Theorem check_predicate_holds_on_model_step :
+  forall (s : state) (m : msg) (s' : state) (r : list Z) (o : obs),
+    Inv s -> sender_ok m -> exec s m = Ret (s', r) -> o_code o = 0 ->
+    c01_step (par s) m o (world_of s) (world_of s') = 0.
+Proof. exact c01_step_model_ok. Qed.
+Print Assumptions check_predicate_holds_on_model_step.
+
+Theorem check_predicate_holds_on_failed_step :
+  forall (s : state) (m : msg) (f : outcome) (o : obs),
+    Inv s -> sender_ok m -> exec s m = Fail f -> o_code o <> 0 ->
+    c01_step (par s) m o (world_of s) (world_of s) = 0.
+Proof. exact c01_step_model_fail. Qed.
+Print Assumptions check_predicate_holds_on_failed_step.
 
 (** ** the hypotheses are satisfiable, on a history with non-trivial residues: fee 0.3 %, a pool
     created 1000007 : 3000001, a sell, a buy, a two-sided add, a one-sided add, a donation,
